@@ -547,6 +547,10 @@ func (p *c10) Run(i int) (res fw.Result) {
 }
 
 func (p *c10) Rule() string {
+	return p.ruleBase() + " " + "Round 12: two more modes (with-keyword-keys, with and without only): a with-hash of 47 entries whose keys are Go keywords, Twig words, words with blanks, digits, non-ASCII letters, the empty word; the targets probe the values of type and for and list every name they see, the host has a type of its own."
+}
+
+func (p *c10) ruleBase() string {
 	return "exhaustive product {include, embed} x {plain, with {w}, only, with+only, with overriding a host variable, with an existing hash variable + only, with an existing hash variable - a Go map of type map[string]Value, map[string]interface{}, map[string]string or keyed by a defined string type} x call site {top level, loop body whose loop variable collides with a host variable (once with a string, once with null; the construct is used again directly after the loop), block of an extending host whose ancestor has blocks named like the target's, macro body, if body, block of a non-extending host that shares both block names} x target {plain, assigns colliding names x and w, assigns a fresh name, extends a base, extends a base and assigns inside a block; the non-extending ones define a macro and call it through _self} x embed override subset (4 subsets of {ba, bb}; bb's override calls parent(); ba's override has a nested block of its own for half of the targets) x {once, twice in a row with the complementary override subset}; random: a second (and third) include/embed nested inside the target's block or an override. Host and target print which of x, y, w, z they see (probe function) at the start, after assignments, inside every block and override, and after the construct. Oracle: reference model (copy of the visible variables overlaid by the with-hash, or the with-hash alone under only; assignments never flow back; embed = exactly the overrides of its body in front of the target's own chain). Non-trivial = a name or block-name collision exists; enumerated coordinates are distinct by construction."
 }
 
